@@ -689,6 +689,10 @@ class C16(SolverSuite):
                               faults=[{"a": "S0", "at_eval": 2, "exc": "ValueError", "when": "before"}])
             return
         T = len([c for c in twin["calls"] if c[0] == "global"])
+        if T < 2:
+            yield G.base_plan(self.prop, run_seed, {"S0": spec}, [{"a": "S0", "op": "create"}, {"a": "S0", "op": "solve"}],
+                              faults=[{"a": "S0", "at_eval": 2, "exc": "ValueError", "when": "before"}])
+            return
         ks = list(range(2, T + 1))
         if len(ks) > 120:
             ks = sorted(rng.sample(ks, 120))
